@@ -6,7 +6,7 @@ CHECK = {
                         "C09.gen_crl_loop", "C09.gen_crl", "C09.gen_term", "C09.gen_redir", "C09.gen_shape", "C09.gen_actions",
                         "C09.gen_goweb", "C09.gen_recover",
                         "FPS.fpFlat_conserve", "FPS.fpFlat_close", "FPS.fpFlat_stable", "FPS.fpFlat_bound", "FPS.relay_fold", "Rec.readFull_spec"],
-        "scenarios": ["C09"],
+        "scenarios": ["C09", "C09target"],
         "reset_ops": ["fp.read", "fp.run"],
         "rule": "inputs: random bytes; every first byte value; 0x16 records of declared length 0,1,7,40,300,2994..2997,3000,16384,65535 (full / trailing bytes / "
                 "truncated body / truncated header); genuine uTLS ClientHellos of 3 browsers with random Cloak fields (whole, trailing, truncated, bit-flipped, "
